@@ -5109,9 +5109,10 @@ def handle_sys_close(parser, events, no_cancel=False):
 
 
 def handle_link(parser, events):
-    old_vnode = parser.parse_vnode(events)
-    new_vnode = parser.parse_vnode([e for e in events if e not in old_vnode.ktraces])
-    return BscLink(events, old_vnode.path, new_vnode.path, serialize_result(events[-1]))
+    nodes = parser.parse_vnodes(events)
+    path1 = nodes[0].path if nodes else ''
+    path2 = nodes[1].path if len(nodes) > 1 else ''
+    return BscLink(events, path1, path2, serialize_result(events[-1]))
 
 
 def handle_unlink(parser, events):
@@ -5487,9 +5488,10 @@ def handle_setregid(parser, events):
 
 
 def handle_rename(parser, events):
-    old_vnode = parser.parse_vnode(events)
-    new_vnode = parser.parse_vnode([e for e in events if e not in old_vnode.ktraces])
-    return BscRename(events, old_vnode.path, new_vnode.path, serialize_result(events[-1]))
+    nodes = parser.parse_vnodes(events)
+    path1 = nodes[0].path if nodes else ''
+    path2 = nodes[1].path if len(nodes) > 1 else ''
+    return BscRename(events, path1, path2, serialize_result(events[-1]))
 
 
 def handle_sys_flock(parser, events):
@@ -5610,10 +5612,11 @@ def handle_quotactl(parser, events):
 
 
 def handle_mount(parser, events):
-    src_vnode = parser.parse_vnode(events)
-    dst_vnode = parser.parse_vnode([e for e in events if e not in src_vnode.ktraces])
+    nodes = parser.parse_vnodes(events)
+    path1 = nodes[0].path if nodes else ''
+    path2 = nodes[1].path if len(nodes) > 1 else ''
     args = events[0].values
-    return BscMount(events, src_vnode.path, dst_vnode.path, args[2], args[3], serialize_result(events[-1]))
+    return BscMount(events, path1, path2, args[2], args[3], serialize_result(events[-1]))
 
 
 def handle_csops(parser, events):
@@ -5751,10 +5754,11 @@ def handle_getdirentriesattr(parser, events):
 
 
 def handle_exchangedata(parser, events):
-    vnode1 = parser.parse_vnode(events)
-    vnode2 = parser.parse_vnode([e for e in events if e not in vnode1.ktraces])
+    nodes = parser.parse_vnodes(events)
+    path1 = nodes[0].path if nodes else ''
+    path2 = nodes[1].path if len(nodes) > 1 else ''
     args = events[0].values
-    return BscExchangedata(events, vnode1.path, vnode2.path, args[2], serialize_result(events[-1]))
+    return BscExchangedata(events, path1, path2, args[2], serialize_result(events[-1]))
 
 
 def handle_searchfs(parser, events):
@@ -6358,10 +6362,11 @@ def handle_getattrlistbulk(parser, events):
 
 
 def handle_clonefileat(parser, events):
-    src = parser.parse_vnode(events)
-    dst = parser.parse_vnode([e for e in events if e not in src.ktraces])
+    nodes = parser.parse_vnodes(events)
+    path1 = nodes[0].path if nodes else ''
+    path2 = nodes[1].path if len(nodes) > 1 else ''
     args = events[0].values
-    return BscClonefileat(events, args[0], src.path, args[2], dst.path, serialize_result(events[-1]))
+    return BscClonefileat(events, args[0], path1, args[2], path2, serialize_result(events[-1]))
 
 
 def handle_openat(parser, events, no_cancel=False):
